@@ -357,3 +357,107 @@ PROPS = {
         "assumptions": ["stamps are taken outside the context's mutex, so the harness chooses the moments of the locked steps inside the observed windows (two strategies); a history is rejected only if no choice fits", "scheduling is perturbed with random delays, not enumerated: an interleaving that never occurs in the runs is covered by the theorems only, not by the tie", "watch mode and serve mode are not exercised", "stdio: Go int is 64 bit; make(count) succeeds (the generator clamps counts to 65535); no pings, active builds or outstanding requests in the modelled sessions"],
     },
 }
+
+
+# ---------------------------------------------------------------------------------------------------------
+# Work packages integrated later: each call extends the property's registration (lists are appended, texts joined).
+def _extend(prop, **kw):
+    p = PROPS[prop]
+    for k, v in kw.items():
+        if isinstance(v, list):
+            p.setdefault(k, [])
+            p[k] = list(p[k]) + v
+        else:
+            p[k] = (p.get(k, "") + "; " + v) if p.get(k) else v
+
+
+_HELD = lambda *a, **k: None  # a registration that is held back while its model is being brought up to a fix in /repo
+
+
+def _thms(ns, names):
+    return ["EsbuildModel.%s.%s" % (ns, n) for n in names.split()]
+
+
+# metafile (C19): byte attribution of the metafile (held back until the model follows the duplicate-key fix in /repo)
+_HELD("C19",
+    lean_modules=["EsbuildModel.Props.C19Metafile"],
+    theorems=_thms("C19Meta", "output_is_concatenation_of_contributions attribution_sums_below_size attribution_is_contribution zero_iff_no_bytes "
+                   "wellKeyed_is_checked css_attribution_sums_below_size css_reader_gets_last_copy css_attribution_is_contribution_partial "
+                   "reported_bytes_is_length css_reported_bytes_is_length dec_value entry_numeral json_text_lists_entries css_json_text_lists_entries input_bytes_numeral"),
+    open=["C19Meta.css_attribution_is_contribution: FALSE of the code when one CSS file has two compile results in a chunk (@import of the same file under two conditions): generateChunkCSS prints one 'inputs' entry per compile result -> duplicate JSON key, a reader keeps the last (proved: css_reader_gets_last_copy; known finding c19-css-duplicate-input-key)",
+          "C19Meta: the text in front of the first / behind the last compile result (hashbang, banner, directives, IIFE wrapper, cross-chunk code, entry-point tail, legal comments at end of file, footer) is an input of the model (nobody's bytes), not derived"],
+    kernels=[("metafile", 2000, 60000)],
+    scope="internal/linker/linker.go: the compile-result loop of generateChunkJS (file-path comments, the newline in front of them, prevFileNameComment, OmitFromSourceMapsAndMetafile, metaOrder/metaBytes) and of generateChunkCSS; breakJoinerIntoPieces incl. the Joiner.Contains shortcut; breakOutputIntoPieces per slice and on the whole chunk; jsonMetadataChunkCallback (accurateFinalByteCount per input, text of inputs/bytes, MaybeRemoveWhitespace); the head of the output JSON (imports/exports/entryPoint/cssBundle) and its path substitution; what generateChunksInParallel appends (legal-comment link, source-map comment, EnsureNewlineAtEnd) and len(outputContents); internal/bundler/bundler.go: the input metadata chunk (bytes/imports/format) and generateMetadataJSON — modelled (Impl/Metafile.lean) and tied through the metafile hook on real builds",
+    assumptions=["metafile: WellKeyed (the unique-key prefix occurs in the chunk only as the head of a complete valid key lying inside one joined part) is decidable (wellKeyedB, proved equivalent) and reported for every real chunk by the kernel", "metafile: pretty paths of the inputs of one chunk are distinct", "metafile: JavaScript compile results are obtained by running the real generateCodeForFileInChunkJS / renameSymbolsInChunk a second time in the hook (a mismatch with the chunk text is reported as a disagreement); CSS compile results are cut out of the chunk text by the harness"])
+
+# cssimport (C12): @import order / de-duplication
+_extend("C12",
+    lean_modules=["EsbuildModel.Props.C12Import"],
+    theorems=_thms("C12Import", "traversal_is_inlining external_imports_first hoist_keeps_relative_order external_imports_first_preserves_winners "
+                   "import_order_dedupe_preserves_cascade_partial layer_passes_preserve_cascade_partial bundle_preserves_cascade_partial "
+                   "bundle_preserves_cascade_without_layered_imports css_import_order_never_fails css_files_in_js_order safeBundle_of_check'"),
+    open=["C12Import.import_order_dedupe_preserves_cascade without SafePair: FALSE (known findings c12-import-dedupe-important-layers, c12-import-dedupe-own-layer-normal, c12-import-dedupe-anonymous-important)",
+          "C12Import.traversal_is_inlining without GraphNoAnon: FALSE (known finding c12-import-anonymous-layer-split: one anonymous @import layer is printed as one anonymous layer per file)",
+          "C12Import.layer_passes_preserve_cascade without SafeLayers: FALSE (known finding c12-import-layer-pass-drops-nested-layer-declaration)",
+          "C12Import.external_imports_first_preserves_winners without ExtSilent/ExtCondsNoLayer: FALSE (by design for competing external rules; known finding c12-import-hoisted-external-layer-order)",
+          "C12Import: the meaning of the printed text (wrapRulesWithConditions: empty anonymous layers and empty @supports/@media omitted) is tied by correspondence only"],
+    kernels=[("cssimport", 1500, 60000)],
+    scope="internal/linker/linker.go findImportedFilesInCSSOrder (visit with the visited chain, pre-import @layer entries, external entries, conditions appended per import; hoisting passes; backward de-duplication with isConditionalImportRedundant; forward @layer pass incl. simplification, layerDuplicates, replace-previous case; merge of adjacent @layer entries), findImportedCSSFilesInJSOrder, importConditionsAreEqual, wrapRulesWithConditions and the external data-URL nesting of generateChunkCSS modelled (Impl/CssImport.lean) against a CSS Cascade 5 spec (Spec/CssImportCascade.lean), observed through api.Build",
+    assumptions=["cssimport: spec = my reading of CSS Cascade 5 (import conditions nest as @media{@supports{@layer{}}}; a layer's own rules beat its sub-layers for normal declarations, order reversed for important); cycles as WebKit (the spec is silent); media query lists / supports conditions are abstract identifiers with equality = TokensEqualIgnoringWhitespace; external style sheets declare no layers for the de-duplication theorems"])
+
+# cssrules (C12): rule-level minification (held back until the model follows the three fixes in /repo)
+_HELD("C12",
+    lean_modules=["EsbuildModel.Props.C12Rules"],
+    theorems=_thms("CssRules", "remove_earlier_duplicate_preserves_cascade removeDeadRules_preserves_cascade merge_adjacent_preserves_cascade "
+                   "unwrap_nested_same_media_preserves_cascade mangleFile_preserves_cascade mangleFile_tame minifyChunk_preserves_cascade "
+                   "Examples.merge_needs_tameness Example.reading_sound"),
+    kernels=[("cssrules", 3000, 60000)])
+
+# c14facts (C14): regenerated facts about override implications, feature gates and runtime guards
+_extend("C14",
+    lean_modules=["EsbuildModel.Props.C14Facts"],
+    theorems=_thms("C14Facts", "fix_body_as_modelled applyAll_total calls_order_ok calls_transitively_closed overrides_closed overrides_closed_in_any_order "
+                   "overrides_sound overrides_exact overrides_only_grow calls_cover_reviewed_dependencies calls_imply_only_reviewed_dependencies "
+                   "dependents_follow override_calls_as_reviewed override_calls_name_features later_writes_keep_closure no_unclassified_reference "
+                   "every_mark_reports gates_as_reviewed gates_all_counted every_feature_has_a_gate_partial ungated_features_have_no_gate "
+                   "symbol_features_listed runtime_syntax_guarded runtime_text_parses_for_every_target runtime_guards_name_features"),
+    gen_facts=["OverrideCalls.lean", "FeatureGates.lean", "RuntimeGuards.lean"],
+    kernels=[("c14facts", 6000, 150000)],
+    open=["C14Facts.every_feature_has_a_gate: FALSE — compat.Hashbang is tested nowhere (known finding c14-hashbang-ungated)"],
+    scope="bundler.applyOptionDefaults: the ordered fixInvalidUnsupportedJSFeatureOverrides calls and that helper's body (regenerated, interpreted); every reference to a compat.JSFeature constant in internal/, pkg/, cmd/ with file, function and syntactic role, and the case table of js_parser.markSyntaxFeature (regenerated); the text segments of runtime.Source with their !Has(F) conditions and token-scanned syntax features (regenerated)",
+    assumptions=["c14facts: feature sets are modelled as name lists (|= is append, Has is membership of a single bit); go/ast extractor without type information (`compat` resolved per file from its import path; gate = syntactic reference in a Has(...) / markSyntaxFeature(...) argument, a variable flowing into one, a syntaxFeature{feature:} literal, or Has(compat.SymbolFeature(..))); the runtime scanner sees tokens only (default arguments, parameter destructuring, `async (..) =>` and shorthand properties are not recognised; the c14facts kernel parses every variant with the real parser instead); reviewed lists in Impl/C14FactsReview.lean (call order, dependency relation, per-feature gate counts and handling kinds, ungated = [Hashbang])"])
+
+# crosschunk (C10): computeCrossChunkDependencies
+_extend("C10",
+    lean_modules=["EsbuildModel.Props.C10CrossChunk"],
+    theorems=_thms("CrossChunk", "used_symbol_is_imported_and_exported imported_symbol_is_used_and_declared import_uses_the_exporters_alias "
+                   "exported_symbol_is_imported export_aliases_distinct entry_exports_are_available entry_imports_all_its_chunks "
+                   "chunks_are_valid_modules export_aliases_always_exist"),
+    kernels=[("crosschunk", 1000, 20000)],
+    open=["CrossChunk: link-following form of used_symbol_is_imported_and_exported (the routine never calls FollowSymbols; needs hypothesis `links`, checked by the driver on every observed build, never violated)",
+          "CrossChunk.tail-declared hypothesis is FALSE on real code for `export var x=1; var x=2` with no in-module use (known finding c10-redeclared-exported-var-dropped)"],
+    scope="internal/linker/linker.go computeCrossChunkDependencies (per-part symbol-use resolution incl. unbound/missing/ImportsToBind/CJS-wrapper skip/namespace alias, ChunkIndex assignment, entry-point export table, exports/wrapper refs, entry-imports-all-its-chunks rule, dynamic-import chunk edges), sortedCrossChunkImports, sortedCrossChunkExportItems, internal/renamer/renamer.go ExportRenamer.NextRenamedName/NextMinifiedName, and the FormatESModule branch of generateEntryPointTailJS (which symbols the tail mentions/declares/exports) modelled (Impl/CrossChunk.lean) against ECMA-262 module linking at symbol level (Spec/CrossChunk.lean), tied through the cross-chunk observation hook on real builds",
+    assumptions=["crosschunk: the hook recovers rewritten import() records from record.Path.Text == chunk uniqueKey; DeclUnique and NonJSDeclareNothing (driver checks decl-unique / nonjs-chunk on every build); uint32 overflow of the rename counter ignored"])
+
+# exportmatch (C02): import/export matching against ECMA-262 ResolveExport
+# (held back until the model follows the fix of the D1 defect: see DESIGN.md A.8)
+_HELD("C02",
+    lean_modules=["EsbuildModel.Props.C02ExportMatch"],
+    theorems=_thms("C02ExportMatch", "import_binds_to_spec_binding resolvedExports_eq_spec resolvedExports_keys_eq_exportedNames export_aliases_eq_namespace_exports linker_model_total"),
+    kernels=[("exportmatch", 800, 60000)],
+    open=["ExportMatch: hasDynamicExportsDueToExportStar / recursivelyWrapDependencies (steps 1-2 of scanImportsAndExports), error texts, reExports dependency lists, symbol flags are not modelled",
+          "ExportMatch.import_binds_to_spec_binding without LocInj: FALSE on the real code (known finding c02-ambiguous-same-binding-different-clause); without NoReexportCycle: FALSE (known finding c02-reexport-cycle-false-ambiguity)"],
+    scope="internal/linker/linker.go scanImportsAndExports steps 3-5: addExportsForExportStar, advanceImportTracker, matchImportWithExport, matchImportsWithExportsForFile, the ambiguity filter behind SortedAndFilteredExportAliases, and the initial ResolvedExports of internal/graph/graph.go are modelled in full (incl. CommonJS / dynamic-fallback / external / TypeScript branches; Impl/ExportMatch.lean) and tied through the exports observation hook on real builds; the theorems relate the ESM-only part to ECMA-262 16.2.1.7 GetExportedNames / ResolveExport (Spec/EsModules.lean)",
+    assumptions=["exportmatch: Spec/EsModules.lean is my transcription of ECMA-262 GetExportedNames/ResolveExport (compared by its author with Node 20 on 1100 random export graphs: 0 disagreements apart from two V8 deviations); toSpec reads an exported namespace import as `export * as ns from` (the linker's tables cannot tell it from `import * as ns; export {ns}`); hypotheses WF, EsmOnly, LocInj, NoReexportCycle, ReexportsLink, each necessary (counterexamples in the Props file)"])
+
+# objrest (C05): object spread / rest lowering
+_extend("C05",
+    lean_modules=["EsbuildModel.Props.C05ObjRest"],
+    theorems=_thms("Lower3", "object_spread_lowering_preserves_behaviour object_rest_lowering_preserves_behaviour expression_lowering_preserves_behaviour "
+                   "lowerStmt_ok thmE lowerSpread_ok visitPPL_ok visitObj_ok spreadValuesH_spec objRestH_spec execStmt_guard evalE_hz evalE_frame "
+                   "proto_after_spread_differs accessor_split_differs object_key_differs proto_key_differs null_rest_differs key_reread_differs not_quiet_differs"),
+    kernels=[("objrest", 8000, 60000), ("objrestsem", 2500, 20000)],
+    open=["Lower3.hazards: object spread/rest lowering preserves behaviour only when the guarded source run stops at none of protoAfterSpread, accessorSplit, objectKey, keyReread, protoKey, nullRest and the world is Quiet; each excluded situation is FALSE on the real code (known findings c05-spread-proto-literal, c05-rest-key-reread, c05-spread-accessor-pair-split, c05-rest-own-proto-key, c05-rest-object-key-converted-twice, c05-rest-of-null)",
+          "Lower3: array patterns (splitArrayPattern; known finding c05-array-rest-split-drains-iterator), member-expression targets, for-in/of heads, catch bindings, function parameters: not modelled"],
+    scope="js_parser_lower.go lowerObjectSpread, lowerObjectRestInDecls, lowerAssign (objRestReturnValueIsUnused and objRestMustReturnInitExpr), lowerObjectRestToDecls, lowerObjectRestHelper (visit, lowerObjectRestPattern, splitObjectPattern, captureIntoRef), captureKeyForObjectRest; runtime.go __spreadValues, __spreadProps, __defNormalProp, __objRest, __restKey as JavaScript — modelled (Impl/Lower3.lean) over an object semantics with ordered string/symbol keys, accessors, prototypes and world events (Spec/ObjectOps.lean), validated against Node 20 by the objrestsem kernel",
+    assumptions=["objrest: objects the program makes are referenced by nobody else while they are built; world objects are ordinary objects (no Proxy), every property read is an event; keys defined by literals are neither array indices nor names of Object.prototype properties; identifiers are declared variables and temporaries are fresh; the helpers see the built-ins captured when the file started; __defNormalProp's `key in obj` test collapsed into define"])
